@@ -40,6 +40,7 @@ type Script struct {
 	Padding      []int    `json:"padding,omitempty"`
 	Stderr       []string `json:"stderr,omitempty"`
 	StderrAt     []int    `json:"stderr_at,omitempty"`
+	StderrLate   []string `json:"stderr_late,omitempty"` // stderr records written after stdout's end-of-stream record, before END_REQUEST
 	Burst        int      `json:"burst,omitempty"`    // that many extra small stderr records ...
 	BurstAt      int      `json:"burst_at,omitempty"` // ... before stdout record number BurstAt
 	BurstText    string   `json:"burst_text,omitempty"`
@@ -330,6 +331,11 @@ func (s *Server) serve(c net.Conn) {
 	}
 	if !sc.NoFinalEmpty {
 		writeRecord(c, typeStdout, id, nil, 0)
+	}
+	for _, se := range sc.StderrLate {
+		if err := writeRecord(c, typeStderr, id, []byte(se), 0); err != nil {
+			return
+		}
 	}
 	if !sc.NoEnd {
 		var b [8]byte
